@@ -697,6 +697,11 @@ def selection_siblings(ctx, repo, pid):
         if f is None:
             raise AnalysisError(f"anchor vanished: {cname}.{fname}")
         ctx.analysed(f)
+        # the string may be assembled in a private helper (method or module-level function) of its own
+        from ..model import FunctionInfo as _FI, set_parents as _sp
+        sp_ = splice_self_calls(ci, f.node, module=ci.module)
+        _sp(sp_)
+        f = _FI(f.name, f.qualname, f.module, sp_, f.cls)
         js = [n for n in ast.walk(f.node) if isinstance(n, ast.JoinedStr) and any(isinstance(v, ast.Constant) and "bynum" in str(v.value) for v in n.values)]
         # the variant that selects molecule 2 contains a '+1' start
         for j in js:
